@@ -97,6 +97,14 @@ def run(repo, tier) -> Result:
             res.ok("R-TRUTH", {"function": f.qualname, "why": "no looked-up value in boolean context"})
         for sx in sites:
             res.fail("R-TRUTH", finding("C09", "R-TRUTH", f, sx, "the reading resolver tests a looked-up value by truthiness / `or`: a candle field or reading equal to 0 resolves to None and the formulas raise TypeError"))
+    # ... and in the methods of the indicator base class that formulas call (an accessor that treats a 0.0 helper reading as missing
+    # turns the output into None after warm-up)
+    _ind = repo.indicator_base()
+    for _m in sorted(_ind.methods.values(), key=lambda f: f.name):
+        if _m.name.startswith("__") or _m.name in ("reading_as_list",):
+            continue
+        for sx in truthiness_sites(_m.node):
+            res.fail("R-TRUTH", finding("C09", "R-TRUTH", _m, sx, "an accessor of the indicator base class tests looked-up readings by truthiness (`all(values)`, `if reading`, `or`): a reading of 0 / 0.0 counts as missing, so a formula built on it returns None after warm-up (a gap)"))
     check_analysis_divisions("C09", res, repo)
     check_amorph_arity("C09", res, repo)
     # totality of the formulas is proved through the helper summaries: the summaries are checked against the helpers' bodies
